@@ -179,6 +179,29 @@ func genFederationSDL(r *rand.Rand) *genFed {
 			sb.WriteString(fmt.Sprintf("type %s%s @svc(s: \"%s\") { %s }\n", p, impl, s, strings.Join(fs, " ")))
 		}
 	}
+	// an interface with nothing but the key, owned by a service that declares some boundary types by their key alone:
+	// "implements Identified" is then carried by an id-only declaration
+	idSvc := ""
+	idOnly := map[string]bool{}
+	if len(btypes) > 0 && r.Intn(3) == 0 {
+		idSvc = pick()
+		for _, b := range btypes {
+			in := false
+			for _, s := range decl[b] {
+				if s == idSvc {
+					in = true
+				}
+			}
+			if in && len(decl[b]) >= 2 && !(implements[b] && ifaceSvc == idSvc) && r.Intn(2) == 0 {
+				idOnly[b] = true
+			}
+		}
+		if len(idOnly) == 0 {
+			idSvc = ""
+		} else {
+			sb.WriteString(fmt.Sprintf("interface Identified @svc(s: \"%s\") { id: ID! }\n", idSvc))
+		}
+	}
 	for _, b := range btypes {
 		used := map[string]bool{"id": true}
 		fs := []string{"id: ID!"}
@@ -188,9 +211,23 @@ func genFederationSDL(r *rand.Rand) *genFed {
 			fs = append(fs, fmt.Sprintf("name: String @owner(s: \"%s\")", ifaceSvc))
 			used["name"] = true
 		}
+		owners := decl[b]
+		if idOnly[b] {
+			if impl == "" {
+				impl = " implements Identified"
+			} else {
+				impl += " & Identified"
+			}
+			owners = nil
+			for _, s := range decl[b] {
+				if s != idSvc {
+					owners = append(owners, s)
+				}
+			}
+		}
 		n := 1 + r.Intn(4)
 		for i := 0; i < n; i++ {
-			s := decl[b][r.Intn(len(decl[b]))]
+			s := owners[r.Intn(len(owners))]
 			fn := usedName(used)
 			dep := ""
 			if r.Intn(6) == 0 {
